@@ -385,10 +385,10 @@ def rule_collect_reentry(ctx):
     b = prog.body(UNPIN)
     r.functions.add(UNPIN)
     n = 0
-    for p in ctx.ex.paths(b):
-        ci = [i for i, e in enumerate(p.events) if e.kind == "call" and e.target == COLLECT]
-        if not ci:
-            continue
+    # the collecting loop is read unrolled: the flags must (still) be set at *every* call of collect, not just the first
+    for (p, cidx) in [(p, k) for p in Exec(prog, unroll=2).paths(b)
+                      for k in [i for i, e in enumerate(p.events) if e.kind == "call" and e.target == COLLECT]]:
+        ci = [cidx]
         n += 1
         r.paths += 1
         pre = p.events[:ci[0]]
